@@ -50,6 +50,15 @@ def sem_equation_ok(F):
     return len(eq) >= 2 and all(st == "ok" for st in eq)
 
 
+def sem_requality_ok(F):
+    """every verifier's equation and reject_mismatch clauses hold semantically"""
+    rs = sem_results(F)
+    eq = [st for entry, c, f, st, msg in rs if c.startswith("equation")]
+    mm = [st for entry, c, f, st, msg in rs if c == "reject_mismatch"]
+    need = 4 if F.has_cfg("feature=digest") else 2
+    return len(mm) >= need and all(st == "ok" for st in mm) and len(eq) >= need and all(st == "ok" for st in eq)
+
+
 def sem_strict_ok(F):
     """the strict clauses of every strict verifier present hold semantically (SigningKey::verify_strict forwards to VerifyingKey::verify_strict)"""
     rs = sem_results(F)
@@ -242,6 +251,12 @@ def check_cfg(F, R, cfg, legacy):
         fv = view(F, f)
         for rule, g in (("C09.canonical_S", G_S), ("C09.R_equality", G_R)):
             ok, why = established(F, f, [g], memo={})
+            if not ok and rule == "C09.R_equality" and sem_requality_ok(F) and \
+                    (re.search(r"verifying::VerifyingKey(::| as [\w:<>]+>::)(verify|verify_strict|verify_prehashed|verify_prehashed_strict|raw_verify|raw_verify_prehashed)$", f["path"]) or
+                     re.search(r"-> (<)?ed25519_dalek::verifying::VerifyingKey(::| as [\w:<>]+>::)(verify|verify_strict|verify_prehashed|verify_prehashed_strict|raw_verify|raw_verify_prehashed):? ", (why or "") + " ")):
+                R.ok(rule, I(nm), "structural form not recognised (the comparison was moved); decided by C09.sem: in every verifier the only comparison is compress(s B - k A) with the "
+                     "signature's R bytes and a failed comparison gives Err only")
+                continue
             (R.ok if ok else R.viol)(rule, I(nm), ("every Ok exit dominated by: " + g.name) if ok else why, *(() if ok else (fv.loc(),)))
         if "strict" in f.get("name", ""):
             for rule, g in (("C09.strict.R_decodes", G_Rdec), ("C09.strict.R_small_order", G_Rsmall), ("C09.strict.A_small_order", G_Asmall)):
